@@ -28,7 +28,7 @@ func (v *vc) getFrameSpec(fr *frame) *frameSpec {
 	fs.ok = true
 	se := v.newSpecEnv(fr, v.entry, nil)
 	for _, m := range fc.modifies {
-		if m == "*" {
+		if m == "*" || strings.HasPrefix(m, "*except ") {
 			fs.all = true
 			continue
 		}
